@@ -777,6 +777,20 @@ func (in *Interp) binop(op token.Token, xt types.Type, x, y Value) Value {
 		case token.LSS, token.LEQ, token.GTR, token.GEQ:
 			as, ok1 := a.Concrete()
 			bs, ok2 := b.Concrete()
+			if !(ok1 && ok2) {
+				c := lexCmp(a.B, b.B)
+				z := BVConstI(64, 0)
+				switch op {
+				case token.LSS:
+					return BVCmp("bvslt", c, z)
+				case token.LEQ:
+					return BVCmp("bvsle", c, z)
+				case token.GTR:
+					return BVCmp("bvsgt", c, z)
+				case token.GEQ:
+					return BVCmp("bvsge", c, z)
+				}
+			}
 			if ok1 && ok2 {
 				switch op {
 				case token.LSS:
